@@ -48,6 +48,16 @@ seed 0).  All 22 gave VIOLATION with a shrunk replay (what manifested is given a
   X3  field.index_doc: same-value short-cut bumps `_num_docs` -> ic=2 after re-indexing identical content
   X4  field.document_repr: implicit default '' instead of None -> repr called without a default
 (K4 and F1 were re-run with the numdocs probe disabled: caught through the public API alone.)
+Bulk modes (field / keyword / facet: the mutating commands of the bulk histories of props/c01, c02, c13 with this
+property's probes; measured, quick tier, seed 0: 11% / 15% / 11% of the kind's cases are bulk, a posting of 65-300
+docids in 8-11%, > 30 distinct values in 3-4%, > 120 documents without a value in 1-1.5%; 60% of the keyword/facet
+bulk cases run under the class default tree_threshold) and the value pools of C01/C02 (num, tuple, bytes, wide).
+Size- / value-dependent mutations (scratch copies /var/tmp/mut_strong1_<N>), all VIOLATION:
+  M2  field.index_doc takes a falsy value ('' / () / b'') as "no value"
+  M3  keyword.unindex_doc skips postings with more than 100 docids (needs the big posting to go away entirely)
+  M4  keyword.normalize truncates float keywords to int
+  M6  BaseIndexMixin.docids drops not_indexed once more than 150 documents are indexed
+  M12 docids() cached on (indexed_count, not_indexed_count)
 `BaseIndexMixin.reindex_doc` without its unindex_doc is an equivalent mutant for these three classes (their
 index_doc handles a known id itself); the three classes override reindex_doc by index_doc.
 """
@@ -58,14 +68,19 @@ import re
 from lib.core import exc_name, idset
 
 ID = "C06"
-CASES = {"quick": 2400, "thorough": 120000}
-BUDGET_S = {"quick": 45, "thorough": 700}
+CASES = {"quick": 4000, "thorough": 120000}
+BUDGET_S = {"quick": 34, "thorough": 660}
 RULE = ("histories of index/reindex/unindex+index/unindex/reset (keyword, facet: also optimize() and "
         "tree_threshold changes over {1,2,3}, rarely 64) per index kind (field, keyword, facet, text with Okapi and cosine back "
         "ends, four pipelines, DICT_CUTOFF 2/3/default) incl. re-indexing identical content (same list, reordered, with duplicates), "
         "value <-> no value alternation, empty keyword/path lists on known and unknown ids, paths matching "
         "no configured facet, unindexing unknown ids, reset in the middle, both BTrees families, attribute and "
-        "callable discriminators, list and tuple values; after every operation the whole observable tuple "
+        "callable discriminators, list, tuple and set values, the value pools of C01/C02 (int, str incl. '', ints/"
+        "floats/bools mixed with 1 == 1.0 == True as one value, tuples, bytes, 120-value pools); bulk modes (about "
+        "12% of the field/keyword/facet cases): 70-400 documents with one posting of 65-400 docids or 35-110 "
+        "distinct values, optionally 121-199 documents without a value, a drain of the big posting back to 58-66 "
+        "docids or to nothing, 60% of the keyword/facet bulk cases under the class default tree_threshold, probes "
+        "rarely during loading, then the full tuple + fresh index, then after every third operation; after every operation the whole observable tuple "
         "(indexed, not_indexed, docids, the three counts, word_count, unique_values) and document_repr of "
         "touched and random ids (explicit and implicit default) are compared with the model, with the "
         "specification's table and with a freshly built real index over the current mapping; the hidden "
@@ -121,6 +136,46 @@ def _tail(cmds, ids, fresh=True, numdocs=False):
 
 def _index_verb(rng):
     return rng.choice(["index", "index", "reindex", "unreindex"])
+
+
+BULK_SHARE = 0.1
+_MUT = ("index", "reindex", "unindex", "reset", "optimize", "setthr", "indexstr")
+
+
+def _from_bulk(rng, cmds0, numdocs=False, fresh=True):
+    """size-dependent bookkeeping: the mutating commands of a bulk history of C01 / C02 / C13 (70-400 documents, one
+    posting with at least 65 docids or 35-110 distinct values, optionally > 120 withdrawn documents, a drain back
+    to ~64, a small history) with this property's probes: rarely while the bulk is loaded, the full tuple and the
+    fresh-index comparison once it is, then after every third operation"""
+    muts = [c for c in cmds0 if c[0] in _MUT]
+    k = 0
+    while k < len(muts) and muts[k][0] == "index":
+        k += 1
+    ids = sorted({c[1] for c in muts[k:] if c[0] in ("index", "reindex", "unindex")})[:40] or [muts[0][1]]
+    cmds = []
+    for i, c in enumerate(muts):
+        if i >= k and c[0] in ("index", "reindex") and rng.random() < 0.3:
+            c = [_index_verb(rng)] + list(c[1:])
+        cmds.append(c)
+        if i < k - 1:
+            if rng.random() < 0.01:
+                cmds.append(["obs"])
+        elif i == k - 1:
+            cmds.append(["obs"])
+            cmds.append(["obsfresh"])
+            if numdocs:
+                cmds.append(["numdocs"])
+        elif rng.random() < 0.35:
+            d = c[1] if c[0] in ("index", "reindex", "unreindex", "unindex") else rng.choice(ids)
+            cmds.append(["obs"])
+            if rng.random() < 0.1:
+                cmds.append(["obsfresh"])
+            if rng.random() < 0.5:
+                cmds.append(["repr", d])
+            if numdocs and rng.random() < 0.3:
+                cmds.append(["numdocs"])
+    _tail(cmds, ids, fresh=fresh, numdocs=numdocs)
+    return cmds
 
 
 class _Base(object):
@@ -245,11 +300,18 @@ def _hist_features(case, outs, value_class):
 # =====================================================================================================
 def gen_field(rng, tier):
     fam = rng.choice([32, 64])
+    vtype = rng.choice(c01.VTYPES)
+    if rng.random() < (0.3 if vtype in ("wide", "widestr") else BULK_SHARE):
+        kind = "wide" if vtype in ("wide", "widestr") and rng.random() < 0.7 else "hot"
+        cfg = [["cfg", "family", fam], ["cfg", "vtype", vtype], ["cfg", "disc", rng.choice(["attr", "callable"])],
+               ["cfg", "mode", "bulk-" + kind]]
+        return {"session": "field", "cfg": cfg,
+                "cmds": _from_bulk(rng, c01.gen_bulk(rng, tier, fam, vtype, kind), fresh=False)}
     ids = (c01.IDS32 if fam == 32 else c01.IDS64)
     if rng.random() < 0.6:
         ids = ids[:rng.randrange(2, 8)]
     nvals = rng.randrange(1, 7)
-    used = sorted(rng.sample(range(len(c01.INT_POOL)), nvals))
+    used = sorted(rng.sample(range(len(c01.pool_of(vtype))), nvals))
     maxlen = 40 if tier == "quick" or rng.random() < 0.9 else 300
     cmds = []
     for _ in range(rng.randrange(4, maxlen)):
@@ -265,7 +327,7 @@ def gen_field(rng, tier):
             cmds.append([_index_verb(rng), d, rng.choice(used)])
         _probes(rng, cmds, d, ids, fresh=False)
     _tail(cmds, ids, fresh=False)
-    cfg = [["cfg", "family", fam], ["cfg", "vtype", rng.choice(["int", "str"])],
+    cfg = [["cfg", "family", fam], ["cfg", "vtype", vtype],
            ["cfg", "disc", rng.choice(["attr", "callable"])]]
     return {"session": "field", "cfg": cfg, "cmds": cmds}
 
@@ -288,7 +350,11 @@ class FieldObs(_Base):
 
 
 def features_field(case, outs):
-    return _hist_features(case, outs, lambda v: "none" if v == ["none"] else "val")
+    f = _hist_features(case, outs, lambda v: "none" if v == ["none"] else "val")
+    cfg = cfgdict(case)
+    f += ["field:vtype:%s" % cfg.get("vtype"), "field:mode:%s" % cfg.get("mode", "small")]
+    f += ["field:" + x for x in c01.size_features(case, lambda c: "none" if c[2] == "none" else (c[2],))[0]]
+    return f
 
 
 KIND["field"] = dict(gen=gen_field, impl=FieldObs, features=features_field,
@@ -304,10 +370,19 @@ KW_THRS = [1, 1, 2, 2, 3, 3, 64]
 
 def gen_keyword(rng, tier):
     fam = rng.choice([32, 64])
+    vtype = rng.choice(c02.VTYPES)
+    if rng.random() < (0.3 if vtype in ("wide", "widestr") else BULK_SHARE):
+        kind = "wide" if vtype in ("wide", "widestr") and rng.random() < 0.6 else "hot"
+        cfg = [["cfg", "family", fam], ["cfg", "vtype", vtype], ["cfg", "disc", rng.choice(["attr", "callable"])],
+               ["cfg", "mode", "bulk-" + kind]]
+        if rng.random() >= 0.6:         # otherwise the class default tree_threshold
+            cfg.append(["cfg", "thr", rng.choice(c02.BULK_THRS)])
+        return {"session": "keyword", "cfg": cfg,
+                "cmds": _from_bulk(rng, c02.gen_bulk(rng, tier, fam, vtype, kind), numdocs=True)}
     ids = (c02.IDS32 if fam == 32 else c02.IDS64)
     if rng.random() < 0.7:
         ids = ids[:rng.randrange(2, 8)]
-    used = sorted(rng.sample(range(len(c02.STR_POOL)), rng.randrange(2, 6)))
+    used = sorted(rng.sample(range(len(c02.pool_of(vtype))), rng.randrange(2, 6)))
     maxlen = 40 if tier == "quick" or rng.random() < 0.9 else 300
     cmds = []
     cur = {}                                # docid -> keyword set (documents with at least one keyword)
@@ -344,7 +419,7 @@ def gen_keyword(rng, tier):
             cur[d] = set(new)
         _probes(rng, cmds, d, ids, numdocs=True)
     _tail(cmds, ids, numdocs=True)
-    cfg = [["cfg", "family", fam], ["cfg", "vtype", rng.choice(["int", "str"])],
+    cfg = [["cfg", "family", fam], ["cfg", "vtype", vtype],
            ["cfg", "disc", rng.choice(["attr", "callable"])], ["cfg", "thr", rng.choice(KW_THRS)]]
     return {"session": "keyword", "cfg": cfg, "cmds": cmds}
 
@@ -358,7 +433,8 @@ def parse_ooset(r):
     if not m:
         return None
     try:
-        return list(ast.literal_eval("[" + m.group(1) + "]"))
+        # repr(float('inf')) is not a literal: 1e999 is
+        return list(ast.literal_eval("[" + re.sub(r"\binf\b", "1e999", m.group(1)) + "]"))
     except (ValueError, SyntaxError):
         return None
 
@@ -367,15 +443,16 @@ class KeywordObs(_Base):
     def __init__(self, hyp, cfg):
         import BTrees
         from hypatia.keyword import KeywordIndex
-        self.pool = c02.STR_POOL if cfg.get("vtype", "str") == "str" else c02.INT_POOL
-        self.rank = {repr(v): i for i, v in enumerate(self.pool)}
+        self.pool = c02.pool_of(cfg.get("vtype", "str"))
+        self.rank = c02.rank_table(cfg.get("vtype", "str"))
         fam = BTrees.family32 if cfg.get("family") == 32 else BTrees.family64
         if cfg.get("disc") == "callable":
             disc = lambda obj, default: getattr(obj, "x", default)  # noqa: E731
         else:
             disc = "x"
         self.idx = KeywordIndex(disc, family=fam)
-        self.idx.tree_threshold = int(cfg.get("thr", 64))
+        if "thr" in cfg:                # otherwise the class default (modelled as 64)
+            self.idx.tree_threshold = int(cfg["thr"])
 
         def mk():
             f = KeywordIndex(disc, family=fam)
@@ -390,8 +467,8 @@ class KeywordObs(_Base):
         self.n += 1
         if toks == ["none"]:
             return o
-        kws = [self.pool[r] for r in toks]
-        o.x = kws if self.n % 2 else tuple(kws)
+        kws = [self.pool[r][(self.n + i) % len(self.pool[r])] for i, r in enumerate(toks)]
+        o.x = kws if self.n % 2 else set(kws) if kws and self.n % 6 == 0 else tuple(kws)
         return o
 
     def uv(self, idx):
@@ -429,7 +506,13 @@ def features_keyword(case, outs):
     def cls(v):
         return "none" if v == ["none"] else "[]" if not v else "kw"
     f = _hist_features(case, outs, cls)
-    f.append("thr0:%s" % c02.cfgdict(case).get("thr"))
+    cfg = c02.cfgdict(case)
+    f.append("thr0:%s" % cfg.get("thr", "class-default"))
+    f += ["keyword:vtype:%s" % cfg.get("vtype"), "keyword:mode:%s" % cfg.get("mode", "small")]
+    sf, mp = c01.size_features(case, lambda c: "none" if c[2:] == ["none"] else tuple(set(c[2:])) or None)
+    f += ["keyword:" + x for x in sf]
+    if mp >= 65 and "thr" not in cfg:
+        f.append("keyword:posting>=65-under-default-threshold")
     cur = {}
     for c in case["cmds"]:
         if c[0] in ("index", "reindex", "unreindex") and c[2:] != ["none"] and c[2:]:
@@ -470,6 +553,13 @@ def gen_facet(rng, tier):
         facets = rng.sample(c13.FACET_POOL, rng.randrange(1, 7))
     if rng.random() < 0.1:
         facets.append(facets[0])
+    if rng.random() < BULK_SHARE:
+        cfg = [["cfg", "facets"] + [c13.enc(f) for f in facets], ["cfg", "family", fam],
+               ["cfg", "disc", rng.choice(["attr", "callable"])], ["cfg", "mode", "bulk"]]
+        if rng.random() >= 0.6:         # otherwise the class default tree_threshold
+            cfg.append(["cfg", "thr", rng.choice(c13.BULK_THRS)])
+        return {"session": "facet", "cfg": cfg,
+                "cmds": _from_bulk(rng, c13.gen_bulk(rng, tier, fam, facets), numdocs=True)}
     maxlen = 40 if tier == "quick" or rng.random() < 0.9 else 300
     cmds = []
     last = {}
@@ -528,7 +618,8 @@ class FacetObs(_Base):
             disc = "x"
         facets = [c13.dec(t) for t in cfg.get("facets", [])]
         self.idx = FacetIndex(disc, facets, family=fam)
-        self.idx.tree_threshold = int(cfg.get("thr", 64))
+        if "thr" in cfg:                # otherwise the class default (modelled as 64)
+            self.idx.tree_threshold = int(cfg["thr"])
 
         def mk():
             f = FacetIndex(disc, facets, family=fam)
@@ -593,6 +684,21 @@ def features_facet(case, outs):
             a != b and b.startswith(a + ":") for a in m for b in m) else "match-many"
     f = _hist_features(case, outs, cls)
     f.append("nfacets:%d" % len(fs))
+    cfg = c13.cfgdict(case)
+    f += ["facet:mode:%s" % cfg.get("mode", "small"), "facet:thr0:%s" % cfg.get("thr", "class-default")]
+
+    def listed(c):
+        if c[2:] == ["none"] or c[2:] == ["unit"]:
+            return "none"
+        m = set()
+        for p in c[2:]:
+            segs = c13.dec(p).split(":")
+            m.update(":".join(segs[:i]) for i in range(1, len(segs) + 1) if ":".join(segs[:i]) in fs)
+        return tuple(m) or None
+    sf, mp = c01.size_features(case, listed)
+    f += ["facet:" + x for x in sf]
+    if mp >= 65 and "thr" not in cfg:
+        f.append("facet:posting>=65-under-default-threshold")
     return f
 
 
